@@ -301,6 +301,11 @@ class Program:
                 ents = re.findall(r'\[\s*(\w+)\s*,\s*"[^"]*"\s*,\s*(\d+)\s*,', m.group(1))
                 if ents:
                     self.enums['BrickColor'] = {n: int(v) for n, v in ents}
+            m = re.search(r'\n\s*material_colors!\s*\{(.*?)\n\}', text_nc, re.S)
+            if m:
+                names = re.findall(r'^\s*(\w+)\s*=>', m.group(1), re.M)
+                if names:
+                    self.enums['TerrainMaterials'] = {n: i for i, n in enumerate(names)}
             # make_variant! { Name(Type), ... }  => Variant and VariantType
             m = re.search(r'make_variant!\s*\{(.*?)\n\}', text_nc, re.S)
             if m:
